@@ -1623,6 +1623,10 @@ class Walker:
                 return NONE_T
             if st.startswith('core::result::Result<'):
                 return ('variant', 'core::result::Result', 1, 'Err', (('conv', 'residual', simp(('field', simp(('downcast', args[0], 1, 'Err')), 0, '0'))),), 1)
+        if name in ('is_some', 'is_none', 'is_ok', 'is_err') and len(args) == 1 and (c.get('self_ty') or c.get('impl_self') or ckey).startswith(('core::option::Option', 'core::result::Result')):
+            v = strip_ref(args[0])
+            if isinstance(v, tuple) and v and v[0] == 'variant' and v[3] in ('Some', 'None', 'Ok', 'Err'):
+                return ('const', 1 if (v[3] in ('Some', 'Ok')) == (name in ('is_some', 'is_ok')) else 0)
         if tr == 'core::cmp::Ord' and name == 'cmp' and len(args) == 2:
             return ('cmp', strip_ref(args[0]), strip_ref(args[1]))
         if name == 'reverse' and len(args) == 1 and args[0][0] == 'cmp' and 'Ordering' in ckey:
